@@ -360,7 +360,23 @@ class C01(PropertyCheck):
     id = "C01"
     lean_modules = ["QipVerif.Props.C01"]
     drivers = ["drv_ket"]
-    theorems = []
+    theorems = [
+        "QipVerif.C01.einsum_lists_spec",
+        "QipVerif.C01.stepKet_contraction",
+        "QipVerif.C01.stepKet_eq_embed_mulVec",
+        "QipVerif.C01.update_spec",
+        "QipVerif.C01.stepOper_eq_embed_mul",
+        "QipVerif.C01.stepKet_model_eq_embed_mulVec",
+        "QipVerif.C01.ket_run_eq_den",
+        "QipVerif.C01.oper_run_eq_den",
+        "QipVerif.C01.unitary_eq_den",
+        "QipVerif.C01.dm_run_eq_den",
+        "QipVerif.C01.ket2dm_spec",
+        "QipVerif.C01.propagators_expand_eq",
+        "QipVerif.C01.propagators_product_eq_den",
+        "QipVerif.C01.den_eq_denG",
+        "QipVerif.C01.getGateUnitary_spec",
+    ]
     technique = ("Lean 4 proof (list combinatorics of the einsum index lists; contraction = embedded operator via the split "
                  "equivalence; induction over the gate list; invariant of the block list of the compact product) + "
                  "exact model/implementation correspondence")
